@@ -112,6 +112,20 @@ def cases(ctx):
         out.append({"kind": f"long-block:{copier}", "rom": "low", "mapping": "low", "format": "ips", "copier": copier, "defines": {},
                     "files": {"big.bin": blob}, "src": "*=0x008000\nstart:\n.incbin 'big.bin'\nend:\n.dl start, end\n",
                     "api": True, "cli": copier, "spec": {"t": "c12"}})
+    # what -D means: NAME=VALUE on the command line is the constant `NAME := VALUE` in front of the source, visible to
+    # the whole program (blocks, macro bodies, scopes, loop bounds, conditions): the pre-bound run equals that twin
+    for i in range(12 if tier == "quick" else 200):
+        mapping = rng.choice(["low", "low2", "high"])
+        defines = rng.choice([{"FOO": 5}, {"FOO": 0x1234, "BAR_2": 0x7E0010, "zed": 0}, {"K9": 3}])
+        body = program(rng, mapping, defines)
+        first = next(iter(defines))
+        body += (f"{{\n.dw {first}\n.scope zz_ds {{\n.db {first} & 0xFF\n}}\n}}\n.macro zz_dm() {{\n.dl {first}\n}}\nzz_dm()\n"
+                 f".for zz_di := 0, {first} & 3 {{\n.db zz_di\n}}\n.if {first} {{\n.db 0xD1\n}} else {{\n.db 0xD0\n}}\n")
+        prefix = "".join(f"{k} := {v:#x}\n" for k, v in defines.items())
+        out.append({"kind": f"define-twin:{mapping}:{len(defines)}D", "rom": mapping, "mapping": mapping, "format": "ips", "copier": False,
+                    "defines": dict(defines), "src": body, "api": True, "cli": i < 6,
+                    "cli_defines": {k: (hex(v) if v > 9 else str(v)) for k, v in defines.items()},
+                    "twin": {"src": prefix + body, "rom": mapping, "files": {}}, "spec": {"t": "twin", "labels": True}})
     # -D values given as expressions, a later one using an earlier one, and malformed ones (the command line must fail)
     for texts, vals, ok in (({"A1": "0x10", "B2": "A1 + 2", "C3": "(A1 | B2) << 1"}, {"A1": 0x10, "B2": 0x12, "C3": 0x24}, True),
                             ({"A1": "~0xF0 & 0xFF", "B2": "-1 + 3"}, {"A1": 0x0F, "B2": 2}, True),
